@@ -114,7 +114,9 @@ Contract(
     ret=TaskList,
     trusted=True,
     allocates=True,
-    modifies=lambda c: {c.pre.fld_arr(TASK, f)[0]: ANY for f in ("_state", "_cancellation_time", "_probability", "_remaining_time")},
+    # (TaskGraph.cancel#body: besides the task fields, looking up the parents of a reached child may add an empty entry to
+    # the graph's parent map, a defaultdict)
+    modifies=lambda c: dict({c.pre.fld_arr(TASK, f)[0]: ANY for f in ("_state", "_cancellation_time", "_probability", "_remaining_time")}, **{c.pre.carr(Adj, p_)[0]: [g_parents(c.pre, c.arg("self"))] for p_ in ("len", "keys", "idx", "dom", "val")}),
     ensures=_tg_cancel_ens,
     note="TaskGraph.cancel: returns and cancels the downstream closure of the task (closure left abstract; its definition is decided by the bounded taskgraph stand-in)",
     props=P,
@@ -639,6 +641,8 @@ def _sk_mod(c):
         out[c.pre.fld_arr(TASK, f)[0]] = ANY
     for p_ in ("len", "keys", "idx", "dom"):
         out[c.pre.carr(FutureMap, p_)[0]] = [fm]
+    for p_ in ("len", "keys", "idx", "dom", "val"):
+        out[c.pre.carr(Adj, p_)[0]] = [g_parents(c.pre, g)]
     return out
 
 
@@ -825,6 +829,10 @@ def _ce_mod(c):
         out[c.pre.carr(FutureMap, p)[0]] = [fut(c.pre, s)]
     out[c.pre.fld_arr(EVENT, "_time")[0]] = ANY
     out[c.pre.fld_arr(EVENT, "_placement")[0]] = ANY
+    # the cancellation cascade of the skip helper may add empty entries to the parent map of the task's graph
+    g = c.pre.d_val(TGMap, c.pre.rd(c.pre.rd(s, SIM, "_workload")[1], WORKLOAD, "_task_graphs")[1], c.pre.rd(task, TASK, "_task_graph")[1])
+    for p_ in ("len", "keys", "idx", "dom", "val"):
+        out[c.pre.carr(Adj, p_)[0]] = [g_parents(c.pre, g)]
     return out
 
 
